@@ -69,6 +69,20 @@ class MSlice:
         return slice(symx.evaluate(self.start, model), symx.evaluate(self.stop, model), symx.evaluate(self.step, model))
 
 
+class _SliceShadowMeta(type):
+    """`slice` inside a shadowed module: calling it builds an MSlice; isinstance() accepts MSlice and real slices
+    (a literal a[i:j] in the code under test still creates a built-in slice)"""
+
+    def __call__(cls, *a):
+        return MSlice(*a)
+
+    def __instancecheck__(cls, obj):
+        return isinstance(obj, (MSlice, slice))
+
+
+SliceShadow = _SliceShadowMeta("slice", (), {})
+
+
 def is_slice(x):
     return isinstance(x, (MSlice, slice))
 
